@@ -60,6 +60,9 @@ def cell_main(args):
     mod = load_module(args.prop)
     tasks = mod.plan(args.tier, args.seed, args.prop) \
         if mod.plan.__code__.co_argcount >= 3 else mod.plan(args.tier, args.seed)
+    if args.max_tasks:
+        step = max(1, len(tasks) // args.max_tasks)
+        tasks = tasks[::step][:args.max_tasks]
     if args.subset < 1.0:
         keep = max(1, int(len(tasks) * args.subset))
         # deterministic, spread subset
@@ -85,14 +88,16 @@ def cell_main(args):
     return 0
 
 
-def run_cell(prop, tier, seed, hash_seed, subset, workers, task_timeout):
+def run_cell(prop, tier, seed, hash_seed, subset, workers, task_timeout,
+             max_tasks=0):
     fd, out = tempfile.mkstemp(prefix='pgradd-verif-cell-', suffix='.pkl')
     os.close(fd)
     try:
         cmd = [PY, os.path.join(HERE, 'run_check.py'), '--cell', prop,
                '--tier', tier, '--seed', str(seed), '--subset', str(subset),
                '--workers', str(workers), '--out', out,
-               '--task-timeout', str(task_timeout)]
+               '--task-timeout', str(task_timeout),
+               '--max-tasks', str(max_tasks)]
         rc = subprocess.call(cmd, env=child_env(hash_seed), cwd=HERE,
                              stdout=sys.stderr)
         if os.path.getsize(out) == 0:
@@ -360,6 +365,43 @@ def report_violation(prop, v, seed, args):
     return path
 
 
+def selftest_determinism(args):
+    """One seed = one execution: the same plan is run in separate fresh
+    interpreters at different worker counts and hash seeds; every run's
+    event-log digest must be identical in all of them."""
+    prop, tier, seed = args.prop, args.tier, args.seed
+    n = args.max_tasks or 24
+    configs = [(0, args.workers), (0, 3), (4242, args.workers), (0, args.workers),
+               (1, 7)]
+    base = None
+    total = 0
+    for hs, w in configs:
+        cell = run_cell(prop, tier, seed, hs, 1.0, w, args.task_timeout,
+                        max_tasks=n)
+        if 'harness_error' in cell:
+            log('HARNESS ERROR: %s' % cell['harness_error'])
+            return 2
+        digs = dict((r['id'], r['digest']) for r in cell['results'])
+        log('[%s] selftest: PYTHONHASHSEED=%s workers=%d: %d runs'
+            % (prop, hs, w, len(digs)))
+        if base is None:
+            base = digs
+            total = len(digs)
+            continue
+        if set(digs) != set(base):
+            print('DETERMINISM FAILURE: different run ids')
+            return 2
+        bad = [k for k in digs if digs[k] != base[k]]
+        if bad:
+            print('DETERMINISM FAILURE: %d of %d runs differ under '
+                  'PYTHONHASHSEED=%s workers=%d, e.g. %s'
+                  % (len(bad), len(digs), hs, w, bad[:5]))
+            return 2
+    print('determinism ok: %d runs x %d configurations, identical event-log '
+          'digests' % (total, len(configs)))
+    return 0
+
+
 def replay_main(args):
     with open(args.replay) as f:
         doc = json.load(f)
@@ -414,6 +456,8 @@ def main():
     ap.add_argument('--shrink-timeout', type=int, default=300)
     ap.add_argument('--max-report', type=int, default=8)
     ap.add_argument('--no-shrink', action='store_true')
+    ap.add_argument('--max-tasks', type=int, default=0)
+    ap.add_argument('--selftest-determinism', action='store_true')
     args = ap.parse_args()
     if args.setup:
         return setup_main()
@@ -426,6 +470,8 @@ def main():
         return oneshot_main(args)
     if args.replay:
         return replay_main(args)
+    if args.selftest_determinism:
+        return selftest_determinism(args)
     return coordinator(args)
 
 
